@@ -24,6 +24,9 @@ COQ = sys.argv[2] if len(sys.argv) > 2 else os.path.join(os.path.dirname(os.path
 LISTDIR = os.path.join(os.path.dirname(os.path.abspath(__file__)), 'c2clite.d')
 
 
+KEEP_EXTERN = set()      # (file, C name): see @extern below
+
+
 def read_lists():
     out = []
     for fn in sorted(os.listdir(LISTDIR)):
@@ -32,6 +35,13 @@ def read_lists():
         for line in open(os.path.join(LISTDIR, fn)):
             line = line.split('#')[0].split()
             if not line:
+                continue
+            if line[0] == '@extern':
+                # "@extern file.c cname": the calls to cname written in file.c stay calls to the untranslated index X_cname
+                # although cname is translated (theorems about file.c's functions stated relative to an oracle keep their form)
+                if len(line) != 3:
+                    die('%s: bad line %r' % (fn, line))
+                KEEP_EXTERN.add((line[1], line[2]))
                 continue
             if len(line) not in (2, 3):
                 die('%s: bad line %r' % (fn, line))
@@ -46,7 +56,7 @@ FUNCS = read_lists()          # (file, C name, Coq name)
 BUILTINS = {'isspace': 'BIsspace', 'isdigit': 'BIsdigit', 'isalpha': 'BIsalpha', 'isupper': 'BIsupper', 'islower': 'BIslower',
             'isalnum': 'BIsalnum', 'isprint': 'BIsprint', 'tolower': 'BTolower', 'toupper': 'BToupper',
             'strlen': 'BStrlen', 'strchr': 'BStrchr', 'strcmp': 'BStrcmp', 'strncmp': 'BStrncmp', 'strrchr': 'BStrrchr',
-            'strcpy': 'BStrcpy', 'atoi': 'BAtoi'}
+            'strcpy': 'BStrcpy', 'atoi': 'BAtoi', 'strcat': 'BStrcat'}
 
 
 class Unsupported(Exception):
@@ -692,11 +702,14 @@ class Translator:
         self.stubs = {}          # Coq name -> why the function could not be translated
         self.globals = []        # (name, coq block text)
         self.gindex = {}
+        self.gowner = {}         # name of a file-level variable -> (file that defines it, is it static)
         self.gvars = {}          # file-level cache: name -> VarDecl node
         self.cur_file = None
 
     def resolve(self, cname):
         """Coq name of the translated function a call to `cname` in the current file reaches, or None"""
+        if (self.cur_file, cname) in KEEP_EXTERN:
+            return None
         if (self.cur_file, cname) in self.byfile:
             return self.byfile[(self.cur_file, cname)]
         cands = [(f, c) for (f, n), c in self.byfile.items() if n == cname]
@@ -794,7 +807,14 @@ class Translator:
     def global_of(self, rd, mangled=None, node=None):
         name = mangled or rd['name']
         if name in self.gindex:
-            return 'G_' + name
+            own = self.gowner.get(name)
+            if mangled or own is None or not own[1] or own[0] == self.cur_file:
+                return 'G_' + name
+            # the block of that name is a file-level static of ANOTHER file (bufs of ex.c / bufs of reg.c): the object
+            # meant here is a different one, named <file>__<name>
+            name = '%s__%s' % (self.cur_file[:-2], rd['name'])
+            if name in self.gindex:
+                return 'G_' + name
         # find the definition (with its initializer if it has one) in the current file
         vd = node
         zero = None
@@ -808,6 +828,8 @@ class Translator:
                     if d.get('kind') == 'VarDecl' and d.get('name') == rd['name'] and d.get('storageClass') != 'extern':
                         if cf != self.cur_file and d.get('storageClass') == 'static':
                             continue
+                        if name not in self.gowner:
+                            self.gowner[name] = (cf, d.get('storageClass') == 'static')
                         if d.get('inner') and any(c.get('kind') not in (None,) for c in d['inner']):
                             vd = d
                         elif zero is None:
